@@ -123,10 +123,12 @@ func (ch *Channel) run() {
 		<-writerDone
 
 	case <-ch.ctx.Done():
+		// close the transport before waiting for the writer,
+		// that might be blocked inside a Write() call without deadline.
 		close(writerTerminate)
-		<-writerDone
-
 		ch.rwc.Close()
+
+		<-writerDone
 		<-readerDone
 	}
 
